@@ -1,8 +1,1874 @@
-// C03 harness (stub: replaced by the real harness).
-use crate::vx::report::Report;
+// C03 -- no byte sequence from the network can panic, wedge or stall a wire decoder.
+//
+// Bounded-exhaustive mutation enumeration over the REAL decoders:
+//   * rustybgp_packet::bgp::PeerCodec::try_parse (-> parse_message) + validate_message, driven
+//     exactly like daemon/src/event/mod.rs run_select drives them (loop on the receive buffer),
+//     plus the attribute sub-decoders the daemon applies to received attribute bytes
+//     (prefix_sid::PrefixSid::decode, tunnel_encap::decode, ls::parse_ls_attr; convert.rs);
+//   * rustybgp_packet::rpki::RtrCodec (tokio_util Decoder::decode on a BytesMut);
+//   * rustybgp_packet::bfd::Message::decode.
+//
+// Seeds are the valid frames of mkmsg (every family x negotiated codec), a few hand-built
+// seed frames (label chains, code-format TLVs); the mutation menu is derived from the
+// independent reader wire.rs (every length field and type / flag byte).  See `RULE`.
+//
+// Case strings (replayable with `hx c03 --replay <case>`):
+//   bgp|<codec>|<hex>[,<hex>...]   chunks fed one after the other into the receive buffer
+//   rtr|<hex>[,<hex>...]
+//   bfd|<hex>
+// <codec> = f=<family|all>,as4=<y|n>,xmsg=<y|n>,xnh=<y|n>,ap=<y|n>
 
-pub fn run(_replay: Option<&str>) -> Report {
+use crate::mkmsg as mk;
+use crate::vx::enumr;
+use crate::vx::report::{self, hex, unhex, Report, Violation};
+use crate::wire::{self, FieldKind, FieldRef, Span};
+use bytes::BytesMut;
+use rustybgp_packet::bgp::{
+    Attribute, Capability, Family, Message, Notification, ParsedMessage, ParsedUpdate, PeerCodec,
+};
+use std::cell::RefCell;
+use std::collections::{BTreeMap, HashSet};
+use std::sync::atomic::{AtomicBool, AtomicU64, AtomicUsize, Ordering};
+use std::sync::{Mutex, OnceLock};
+use tokio_util::codec::Decoder;
+
+const RULE: &str = "seeds: valid frames of mkmsg for each of the 19 families x 16 negotiated codecs \
+(2/4-byte AS x extended message x extended next hop x add-path) + 4 all-families codecs: UPDATE reach/unreach with every named \
+NLRI value, 3-entry lists, every RFC-valid next hop, every attribute kind/value, End-of-RIB; OPEN with every capability set, \
+NOTIFICATION, KEEPALIVE, ROUTE-REFRESH; full-size (4096 / 65535 byte) UPDATEs; hand-built seeds (label-stack chains, code-format TLVs). \
+single mutations per seed: every length field reported by wire.rs (header, withdrawn, total-attr, per-attr, ext-attr, MP next-hop, NLRI \
+bit length, EVPN route length, capability / opt-param / inner lengths, TLV lengths of LS / tunnel-encap / prefix-SID) set to \
+{0,1,v-1,v+1,0x7f,0x80,0xff,0x7fff,0x8000,0xff00,0xffff} plus the values where withdrawn+attr+23 reaches 2^16; every type / flag byte over all 256 values; \
+every byte of NLRI bodies, TLV / AS_PATH attribute bodies and OPEN parameters over {0,1,v-1,v+1,0x7f,0x80,0xff} and 2/3/4/8-byte \
+all-zero / all-one fills; header length = n with the frame cut / zero-padded to n for every n; raw truncation at every byte; one extra trailing byte. \
+thorough adds every pair {a,b} of non-overlapping mutations, a from the full menu, b from the boundary menu (type bytes restricted to the 7 boundary values). \
+stream level: every seed split at every offset, frames glued, header only. RTR: versions {0,1,2,3,255} x type 0..255 x length menu x exact-size / resized buffer x every split. \
+BFD: every value of bytes 0..3, boundary values of the others, every length, every truncation. \
+a case is non-trivial when the mutated bytes differ from the seed; distinct = distinct byte strings per (codec, seed) (hash set)";
+
+// ---------------------------------------------------------------------------
+// codec contexts
+// ---------------------------------------------------------------------------
+
+const ALL_FAM: u8 = 255;
+
+#[derive(Clone, Copy, Debug, PartialEq, Eq, Hash, PartialOrd, Ord)]
+struct Cx {
+    /// index into mk::families(), ALL_FAM = every family negotiated
+    fam: u8,
+    as4: bool,
+    xmsg: bool,
+    xnh: bool,
+    ap: bool,
+}
+
+fn yn(b: bool) -> char {
+    if b { 'y' } else { 'n' }
+}
+
+impl Cx {
+    fn name(&self) -> String {
+        let f = if self.fam == ALL_FAM { "all".to_string() } else { mk::family_name(mk::families()[self.fam as usize]).to_string() };
+        format!("f={},as4={},xmsg={},xnh={},ap={}", f, yn(self.as4), yn(self.xmsg), yn(self.xnh), yn(self.ap))
+    }
+    fn parse(s: &str) -> Option<Cx> {
+        let mut c = Cx { fam: 0, as4: true, xmsg: false, xnh: false, ap: false };
+        for tok in s.split(',') {
+            let (k, v) = tok.split_once('=')?;
+            match k {
+                "f" => {
+                    c.fam = if v == "all" {
+                        ALL_FAM
+                    } else {
+                        mk::families().iter().position(|f| mk::family_name(*f) == v)? as u8
+                    }
+                }
+                "as4" => c.as4 = v == "y",
+                "xmsg" => c.xmsg = v == "y",
+                "xnh" => c.xnh = v == "y",
+                "ap" => c.ap = v == "y",
+                _ => return None,
+            }
+        }
+        Some(c)
+    }
+    fn caps(&self) -> Vec<Capability> {
+        let mode = if self.ap { 3 } else { 0 };
+        if self.fam != ALL_FAM {
+            return mk::session_caps(mk::families()[self.fam as usize], self.as4, self.xmsg, self.xnh, mode);
+        }
+        let fams = mk::families();
+        let mut v: Vec<Capability> = fams.iter().map(|f| Capability::MultiProtocol(*f)).collect();
+        if self.xnh {
+            v.push(Capability::ExtendedNexthop(
+                fams.iter().filter(|f| f.afi() == Family::AFI_IP).map(|f| (*f, Family::AFI_IP6)).collect(),
+            ));
+        }
+        if self.xmsg {
+            v.push(Capability::ExtendedMessage);
+        }
+        if self.as4 {
+            v.push(Capability::FourOctetAsNumber(65001));
+        }
+        if self.ap {
+            v.push(Capability::AddPath(fams.iter().map(|f| (*f, 3u8)).collect()));
+        }
+        v
+    }
+    /// both ends advertise the same capabilities: sender codec == receiver codec
+    fn codec(&self) -> PeerCodec {
+        let c = self.caps();
+        PeerCodec::negotiate(&c, &c)
+    }
+    fn max_len(&self) -> usize {
+        if self.xmsg { 65535 } else { 4096 }
+    }
+    /// what the DEcoder's behaviour depends on (extended next hop only changes the encoder)
+    fn rx_key(&self) -> (u8, bool, bool, bool) {
+        (self.fam, self.as4, self.xmsg, self.ap)
+    }
+}
+
+// ---------------------------------------------------------------------------
+// outcome histogram (non-vacuity)
+// ---------------------------------------------------------------------------
+
+const H_MSG: usize = 0; // +0 open +1 update-routes +2 update-eor +3 notification +4 keepalive +5 route-refresh
+const H_NONE: usize = 6;
+const H_PANIC: usize = 7;
+const H_ERR: usize = 8; // + code*32 + subcode
+const HN: usize = 8 + 8 * 32;
+
+fn h_msg(m: &ParsedMessage) -> usize {
+    match m {
+        ParsedMessage::Open(_) => 0,
+        ParsedMessage::Update(ParsedUpdate::Routes { .. }) => 1,
+        ParsedMessage::Update(ParsedUpdate::EndOfRib(_)) => 2,
+        ParsedMessage::Notification(_) => 3,
+        ParsedMessage::Keepalive => 4,
+        ParsedMessage::RouteRefresh { .. } => 5,
+    }
+}
+fn h_err(n: &Notification) -> usize {
+    H_ERR + (n.notification_code().min(7) as usize) * 32 + n.notification_subcode().min(31) as usize
+}
+fn h_name(i: usize) -> String {
+    match i {
+        0 => "bgp:msg:open".into(),
+        1 => "bgp:msg:update".into(),
+        2 => "bgp:msg:eor".into(),
+        3 => "bgp:msg:notification".into(),
+        4 => "bgp:msg:keepalive".into(),
+        5 => "bgp:msg:route-refresh".into(),
+        H_NONE => "bgp:need-more".into(),
+        H_PANIC => "bgp:panic".into(),
+        _ => format!("bgp:err:{}/{}", (i - H_ERR) / 32, (i - H_ERR) % 32),
+    }
+}
+
+struct Acc {
+    hist: [u64; HN],
+    evals: u64,
+    /// validate_message outputs seen
+    validated: u64,
+    sub_decoded: u64,
+}
+impl Acc {
+    fn new() -> Acc {
+        Acc { hist: [0; HN], evals: 0, validated: 0, sub_decoded: 0 }
+    }
+    fn flush(&mut self, rep: &mut Report) {
+        for (i, n) in self.hist.iter().enumerate() {
+            if *n > 0 {
+                rep.add(&h_name(i), *n);
+            }
+        }
+        rep.evaluations += self.evals;
+        rep.add("bgp:validate_message outputs", self.validated);
+        rep.add("bgp:attribute sub-decoder calls", self.sub_decoded);
+        *self = Acc::new();
+    }
+}
+
+// ---------------------------------------------------------------------------
+// oracles
+// ---------------------------------------------------------------------------
+
+/// sig tail + description
+type Bad = (String, String);
+
+fn panic_sig(msg: &str) -> String {
+    // "<message> @ <file>:<line>"
+    let loc = msg.rsplit_once(" @ ").map(|x| x.1).unwrap_or("");
+    let short = if let Some(i) = loc.find("packet/src/") {
+        &loc[i + "packet/src/".len()..]
+    } else if let Some(i) = loc.find("/registry/src/") {
+        let rest = &loc[i + "/registry/src/".len()..];
+        rest.split_once('/').map(|x| x.1).unwrap_or(rest)
+    } else if let Some(i) = loc.find("/library/") {
+        &loc[i + 1..]
+    } else {
+        loc
+    };
+    format!("panic/{}", if short.is_empty() { "unknown-location" } else { short })
+}
+
+/// independent view of the receive buffer (RFC 4271 §4.1)
+#[derive(Clone, Copy, Debug, PartialEq, Eq)]
+enum Fs {
+    ShortHeader,
+    BadLen(usize),
+    Incomplete,
+    Complete(usize),
+}
+fn frame_state(buf: &[u8], max_len: usize) -> Fs {
+    if buf.len() < 19 {
+        return Fs::ShortHeader;
+    }
+    let l = u16::from_be_bytes([buf[16], buf[17]]) as usize;
+    if l < 19 || l > max_len {
+        Fs::BadLen(l)
+    } else if buf.len() < l {
+        Fs::Incomplete
+    } else {
+        Fs::Complete(l)
+    }
+}
+
+fn sub_decode(a: &Attribute, acc: &mut Acc) {
+    // daemon/src/convert.rs applies these to the stored bytes of received attributes
+    if let Some(b) = a.binary() {
+        match a.code() {
+            Attribute::PREFIX_SID => {
+                acc.sub_decoded += 1;
+                let _ = std::hint::black_box(rustybgp_packet::prefix_sid::PrefixSid::decode(b));
+            }
+            Attribute::TUNNEL_ENCAP => {
+                acc.sub_decoded += 1;
+                let _ = std::hint::black_box(rustybgp_packet::tunnel_encap::decode(b));
+            }
+            Attribute::LS => {
+                acc.sub_decoded += 1;
+                let _ = std::hint::black_box(rustybgp_packet::ls::parse_ls_attr(b));
+            }
+            _ => {}
+        }
+    }
+}
+
+/// what the session does with one parsed frame (event/mod.rs run_select)
+fn post(m: ParsedMessage, ebgp: bool, acc: &mut Acc) {
+    if let ParsedMessage::Update(ParsedUpdate::Routes { attrs, .. }) = &m {
+        for a in attrs {
+            sub_decode(a, acc);
+        }
+    }
+    match rustybgp_packet::bgp::validate_message(m, ebgp) {
+        Ok(it) => {
+            for msg in it {
+                acc.validated += 1;
+                if let Message::Update(_) = &msg {
+                    std::hint::black_box(&msg);
+                }
+            }
+        }
+        Err(n) => {
+            std::hint::black_box(n.notification_code());
+        }
+    }
+}
+
+/// Feed `chunks` into a receive buffer the way the session task does and check
+/// every clause.  Returns the first violation (the session is dead after it).
+fn eval_bgp(rx: &mut PeerCodec, max_len: usize, chunks: &[&[u8]], acc: &mut Acc) -> Option<Bad> {
+    let mut buf = BytesMut::new();
+    for chunk in chunks {
+        buf.extend_from_slice(chunk);
+        let mut iters = 0usize;
+        let cap = buf.len() / 19 + 4;
+        loop {
+            iters += 1;
+            if iters > cap {
+                return Some(("nontermination/bgp-try_parse-loop".into(), format!("try_parse still yields messages after {cap} iterations on a buffer that held at most {} frames", cap - 4)));
+            }
+            let before = buf.len();
+            let st = frame_state(&buf, max_len);
+            // the frame, for the direct parse_message pass (is_ebgp = false)
+            let direct: Option<Vec<u8>> = if let Fs::Complete(l) = st { Some(buf[..l].to_vec()) } else { None };
+            acc.evals += 1;
+            let r = report::catch(|| rx.try_parse(&mut buf));
+            match r {
+                Err(p) => {
+                    acc.hist[H_PANIC] += 1;
+                    return Some((panic_sig(&p), format!("PeerCodec::try_parse panicked: {p}")));
+                }
+                Ok(Ok(Some(m))) => {
+                    acc.hist[H_MSG + h_msg(&m)] += 1;
+                    if buf.len() >= before {
+                        return Some(("no-consume/bgp".into(), format!("try_parse returned a message but the buffer did not get shorter ({before} -> {})", buf.len())));
+                    }
+                    if let Err(p) = report::catch(|| post(m, true, acc)) {
+                        acc.hist[H_PANIC] += 1;
+                        return Some((panic_sig(&p), format!("processing the parsed message (validate_message / attribute sub-decoders) panicked: {p}")));
+                    }
+                }
+                Ok(Ok(None)) => {
+                    acc.hist[H_NONE] += 1;
+                    // a decoder may drop bytes and still ask for more; what matters is what it leaves behind
+                    match frame_state(&buf, max_len) {
+                        Fs::Complete(l) => return Some(("need-more-on-complete-frame/bgp:complete".into(), format!("buffer holds a complete {l}-byte frame ({} bytes buffered) but try_parse asks for more", buf.len()))),
+                        Fs::BadLen(l) => return Some(("need-more-on-complete-frame/bgp:bad-length".into(), format!("header length field {l} is outside 19..={max_len} (can never complete) but try_parse asks for more"))),
+                        _ => {}
+                    }
+                    break;
+                }
+                Ok(Err(n)) => {
+                    acc.hist[h_err(&n)] += 1;
+                    return None; // rejected: NOTIFICATION + close
+                }
+            }
+            // same frame through parse_message directly, then validate as iBGP
+            if let Some(f) = direct {
+                acc.evals += 1;
+                match report::catch(|| rx.parse_message(&f)) {
+                    Err(p) => return Some((panic_sig(&p), format!("PeerCodec::parse_message panicked: {p}"))),
+                    Ok(Ok(m)) => {
+                        if let Err(p) = report::catch(|| post(m, false, acc)) {
+                            return Some((panic_sig(&p), format!("validate_message(ibgp) / sub-decoders panicked: {p}")));
+                        }
+                    }
+                    Ok(Err(_)) => {}
+                }
+            }
+            if buf.is_empty() {
+                break;
+            }
+        }
+    }
+    None
+}
+
+// ---- RTR ----
+
+#[derive(Clone, Copy, Debug, PartialEq, Eq)]
+enum Rs {
+    ShortHeader,
+    BadLen(usize),
+    Incomplete,
+    Complete(usize),
+}
+fn rtr_state(buf: &[u8]) -> Rs {
+    if buf.len() < 8 {
+        return Rs::ShortHeader;
+    }
+    let l = u32::from_be_bytes([buf[4], buf[5], buf[6], buf[7]]) as usize;
+    if l < 8 {
+        Rs::BadLen(l)
+    } else if buf.len() < l {
+        Rs::Incomplete
+    } else {
+        Rs::Complete(l)
+    }
+}
+/// RFC 6810 / 8210 / 8210bis: is this PDU type defined for this version?
+fn rtr_type_defined(version: u8, t: u8) -> bool {
+    match t {
+        0..=4 | 6..=8 | 10 => true,
+        9 => version >= 1,
+        11 => version >= 2,
+        _ => false,
+    }
+}
+
+fn eval_rtr(chunks: &[&[u8]], evals: &mut u64, hist: &mut [u64; 4]) -> Option<Bad> {
+    let mut codec = rustybgp_packet::rpki::RtrCodec::new();
+    let mut buf = BytesMut::new();
+    for chunk in chunks {
+        buf.extend_from_slice(chunk);
+        let mut iters = 0usize;
+        let cap = buf.len() + 4;
+        loop {
+            iters += 1;
+            if iters > cap {
+                return Some(("nontermination/rtr-decode-loop".into(), format!("RtrCodec::decode still yields messages after {cap} iterations")));
+            }
+            let before = buf.len();
+            let st = rtr_state(&buf);
+            *evals += 1;
+            match report::catch(|| codec.decode(&mut buf)) {
+                Err(p) => {
+                    hist[3] += 1;
+                    return Some((panic_sig(&p), format!("RtrCodec::decode panicked: {p}")));
+                }
+                Ok(Ok(Some(_m))) => {
+                    hist[0] += 1;
+                    if buf.len() >= before {
+                        let shape = if matches!(st, Rs::BadLen(_)) { "rtr-short-length" } else { "rtr" };
+                        return Some((format!("no-consume/{shape}"), format!("decode returned a message without consuming input (buffer {before} -> {}, state {st:?}): the Framed loop spins forever", buf.len())));
+                    }
+                }
+                Ok(Ok(None)) => {
+                    hist[1] += 1;
+                    // a decoder may skip PDUs and still ask for more; what matters is what it leaves behind
+                    let st = rtr_state(&buf);
+                    let (ver, ty) = if buf.len() >= 2 { (buf[0], buf[1]) } else { (0, 0) };
+                    match st {
+                        Rs::Complete(l) => {
+                            let valid = wire::read_rtr(&buf[..l]).is_ok();
+                            return Some(if !rtr_type_defined(ver, ty) {
+                                ("wedge/rtr-unknown-type".into(), format!("complete {l}-byte PDU of undefined type {ty} (version {ver}) is neither consumed nor rejected: decode asks for more bytes forever"))
+                            } else if valid {
+                                ("wedge/rtr-unsupported-type".into(), format!("complete, RFC-valid {l}-byte PDU of type {ty} (version {ver}) is neither consumed nor rejected: decode asks for more bytes forever"))
+                            } else {
+                                ("need-more-on-complete-frame/rtr:short-body".into(), format!("complete {l}-byte PDU of type {ty} (version {ver}) whose length is too small for its type is neither consumed nor rejected"))
+                            });
+                        }
+                        Rs::BadLen(l) => {
+                            return Some(if !rtr_type_defined(ver, ty) {
+                                ("wedge/rtr-unknown-type".into(), format!("PDU header of undefined type {ty} with length {l} < 8: decode asks for more bytes forever"))
+                            } else {
+                                ("need-more-on-complete-frame/rtr:length-below-header".into(), format!("PDU header of type {ty} with length field {l} < 8 can never complete but decode asks for more bytes"))
+                            });
+                        }
+                        _ => {}
+                    }
+                    break;
+                }
+                Ok(Err(_e)) => {
+                    hist[2] += 1;
+                    return None;
+                }
+            }
+            if buf.is_empty() {
+                break;
+            }
+        }
+    }
+    None
+}
+
+fn eval_bfd(b: &[u8], hist: &mut [u64; 3]) -> Option<Bad> {
+    match report::catch(|| rustybgp_packet::bfd::Message::decode(b)) {
+        Err(p) => {
+            hist[2] += 1;
+            Some((panic_sig(&p), format!("bfd::Message::decode panicked: {p}")))
+        }
+        Ok(Ok(_)) => {
+            hist[0] += 1;
+            None
+        }
+        Ok(Err(_)) => {
+            hist[1] += 1;
+            None
+        }
+    }
+}
+
+// ---------------------------------------------------------------------------
+// mutations
+// ---------------------------------------------------------------------------
+
+#[derive(Clone, Copy, Debug, PartialEq, Eq, Hash, PartialOrd, Ord)]
+enum Op {
+    /// write `val` big-endian into `width` (1..=4) bytes at `off`
+    Set { off: u32, width: u8, val: u32 },
+    /// fill `width` bytes at `off` with `byte`
+    Fill { off: u32, width: u8, byte: u8 },
+    /// header length := n and the frame cut / zero-padded to exactly n bytes
+    Resize(u32),
+    /// raw truncation of the stream after n bytes (header untouched)
+    Trunc(u32),
+    /// one extra byte after the frame
+    Append(u8),
+}
+
+impl Op {
+    fn apply(&self, b: &mut Vec<u8>) {
+        match *self {
+            Op::Set { off, width, val } => {
+                let (o, w) = (off as usize, width as usize);
+                if o + w <= b.len() {
+                    for i in 0..w {
+                        b[o + i] = (val >> (8 * (w - 1 - i))) as u8;
+                    }
+                }
+            }
+            Op::Fill { off, width, byte } => {
+                let (o, w) = (off as usize, width as usize);
+                if o + w <= b.len() {
+                    for x in &mut b[o..o + w] {
+                        *x = byte;
+                    }
+                }
+            }
+            Op::Resize(n) => {
+                b.resize(n as usize, 0);
+                if b.len() >= 18 {
+                    b[16] = (n >> 8) as u8;
+                    b[17] = n as u8;
+                }
+            }
+            Op::Trunc(n) => b.truncate(n as usize),
+            Op::Append(x) => b.push(x),
+        }
+    }
+    /// byte range written (None for the structural ops)
+    fn range(&self) -> Option<(usize, usize)> {
+        match *self {
+            Op::Set { off, width, .. } | Op::Fill { off, width, .. } => Some((off as usize, off as usize + width as usize)),
+            _ => None,
+        }
+    }
+}
+
+#[derive(Clone, Copy, Debug)]
+struct M {
+    op: Op,
+    /// member of the boundary menu (second element of a pair)
+    boundary: bool,
+}
+
+fn is_len_kind(k: FieldKind) -> bool {
+    use FieldKind::*;
+    matches!(k, OpenOptLen | OpenExtOptLen | OptParamLen | CapLen | CapInnerLen | WithdrawnLen | TotalAttrLen | AttrLen | AttrExtLen | MpNhLen | NlriLen | EvpnRouteLen | TlvLen)
+}
+fn is_type_kind(k: FieldKind) -> bool {
+    use FieldKind::*;
+    matches!(k, MsgType | OpenVersion | OpenExtMarker | OptParamType | CapCode | AttrFlags | AttrType | MpAfi | MpSafi | MpReserved | LabelBos | EvpnRouteType | NotifCode | NotifSubcode | RrAfi | RrSubtype | RrSafi | TlvType)
+}
+fn is_nlri_level(k: FieldKind) -> bool {
+    use FieldKind::*;
+    matches!(k, NlriPathId | NlriLen | LabelBos | EvpnRouteType | EvpnRouteLen)
+}
+
+const BYTE_BOUNDS: [i32; 5] = [0, 1, 0x7f, 0x80, 0xff];
+
+fn byte_boundary_vals(v: u8) -> Vec<u8> {
+    let mut o: Vec<u8> = BYTE_BOUNDS.iter().map(|x| *x as u8).collect();
+    o.push(v.wrapping_sub(1));
+    o.push(v.wrapping_add(1));
+    o
+}
+
+fn rd(frame: &[u8], off: usize, width: usize) -> u32 {
+    let mut v = 0u32;
+    for i in 0..width {
+        v = v << 8 | frame[off + i] as u32;
+    }
+    v
+}
+
+struct MenuInfo {
+    reader_ok: bool,
+    fields: usize,
+}
+
+/// The single-mutation menu of one seed frame.  Every op yields a byte string
+/// different from the seed and from every other op's (hash set of outputs).
+fn menu(frame: &[u8], cx: &Cx, big: bool) -> (Vec<M>, MenuInfo) {
+    let len = frame.len();
+    let mut raw: Vec<M> = Vec::new();
+    let mut push = |op: Op, boundary: bool| raw.push(M { op, boundary });
+    // --- header length, cuts, truncation, trailing byte ---
+    for n in 0..len {
+        push(Op::Trunc(n as u32), false);
+    }
+    for n in 19..len {
+        push(Op::Resize(n as u32), true);
+    }
+    for n in [len + 1, len + 2, len + 255, 0x7f, 0x80, 0xff, 0x100, 4095, 4096, 4097, 65535] {
+        if n >= 19 && n != len && n <= 65535 {
+            push(Op::Resize(n as u32), n < len + 3);
+        }
+    }
+    push(Op::Append(0x00), false);
+    push(Op::Append(0xff), false);
+    if len >= 19 {
+        let v = rd(frame, 16, 2);
+        for val in [0u32, 1, 18, 19, v.wrapping_sub(1) & 0xffff, (v + 1) & 0xffff, 0x7f, 0x80, 0xff, 0x7fff, 0x8000, 0xff00, 0xffff] {
+            push(Op::Set { off: 16, width: 2, val }, true);
+        }
+    }
+    // --- fields of the independent reader ---
+    let mut info = MenuInfo { reader_ok: false, fields: 0 };
+    let mut fields: Vec<FieldRef> = Vec::new();
+    let mut regions: Vec<Span> = Vec::new();
+    if let Ok(fr) = wire::read_frame(frame, cx.max_len().max(len)) {
+        info.reader_ok = true;
+        fields.extend(fr.fields.iter().copied());
+        if let Ok(nf) = wire::update_nlri_fields(frame, &fr, cx.ap) {
+            fields.extend(nf);
+        }
+        match &fr.body {
+            wire::Body::Update(u) => {
+                regions.push(u.withdrawn);
+                regions.push(u.nlri);
+                if let Some(m) = &u.mp_reach {
+                    regions.push(m.nlri);
+                    if m.afi == 16388 {
+                        let _ = wire::walk_tlvs(frame, m.nlri, 2, 2, &mut fields);
+                    }
+                }
+                if let Some(m) = &u.mp_unreach {
+                    regions.push(m.nlri);
+                    if m.afi == 16388 {
+                        let _ = wire::walk_tlvs(frame, m.nlri, 2, 2, &mut fields);
+                    }
+                }
+                for a in &u.attrs {
+                    match a.code {
+                        29 | 23 => {
+                            let _ = wire::walk_tlvs(frame, a.value, 2, 2, &mut fields);
+                            regions.push(a.value);
+                        }
+                        40 => {
+                            let _ = wire::walk_tlvs(frame, a.value, 1, 2, &mut fields);
+                            regions.push(a.value);
+                        }
+                        2 | 7 | 17 | 18 | 26 => regions.push(a.value),
+                        _ => {}
+                    }
+                }
+            }
+            wire::Body::Open(o) => {
+                for p in &o.params {
+                    regions.push(p.value);
+                }
+            }
+            _ => {}
+        }
+    }
+    fields.sort_by_key(|f| (f.off, f.width, f.kind));
+    fields.dedup();
+    info.fields = fields.len();
+    for f in &fields {
+        if f.off + f.width > len {
+            continue;
+        }
+        let k = f.kind;
+        if k == FieldKind::HeaderLen {
+            continue;
+        }
+        if is_len_kind(k) {
+            let v = rd(frame, f.off, f.width);
+            let mask: u32 = if f.width >= 4 { u32::MAX } else { (1u32 << (8 * f.width)) - 1 };
+            let mut vals: Vec<u32> = vec![0, 1, v.wrapping_sub(1) & mask, v.wrapping_add(1) & mask, 0x7f, 0x80, 0xff];
+            if f.width >= 2 {
+                vals.extend([0x7fff, 0x8000, 0xff00, 0xffff]);
+            }
+            if k == FieldKind::TotalAttrLen || k == FieldKind::WithdrawnLen {
+                // withdrawn + attr + 23 around 2^16
+                let other_off = if k == FieldKind::TotalAttrLen { 19 } else { f.off + 2 + v as usize };
+                let other = if other_off + 2 <= len { rd(frame, other_off, 2) } else { 0 };
+                let t = 65536u32.wrapping_sub(23).wrapping_sub(other) & 0xffff;
+                vals.extend([t.wrapping_sub(1) & 0xffff, t, (t + 1) & 0xffff, (len as u32).wrapping_sub(23) & 0xffff, (len as u32).wrapping_sub(22) & 0xffff]);
+            }
+            for val in vals {
+                push(Op::Set { off: f.off as u32, width: f.width as u8, val }, true);
+            }
+        } else if is_type_kind(k) {
+            for i in 0..f.width {
+                let v = frame[f.off + i];
+                let b = byte_boundary_vals(v);
+                if big && is_nlri_level(k) {
+                    for val in b {
+                        push(Op::Set { off: (f.off + i) as u32, width: 1, val: val as u32 }, true);
+                    }
+                } else {
+                    for val in 0..=255u8 {
+                        push(Op::Set { off: (f.off + i) as u32, width: 1, val: val as u32 }, b.contains(&val));
+                    }
+                }
+            }
+        } else {
+            // marker / AS / hold time / identifier / path id: boundary values per byte
+            if big && is_nlri_level(k) {
+                continue;
+            }
+            let idx: Vec<usize> = if k == FieldKind::Marker { vec![0, f.width - 1] } else { (0..f.width).collect() };
+            for i in idx {
+                for val in byte_boundary_vals(frame[f.off + i]) {
+                    push(Op::Set { off: (f.off + i) as u32, width: 1, val: val as u32 }, true);
+                }
+            }
+        }
+    }
+    // --- body regions: every byte over the boundary values + fills ---
+    if !big {
+        let mut offs: Vec<usize> = Vec::new();
+        for r in &regions {
+            if r.len == 0 || r.end() > len {
+                continue;
+            }
+            if r.len <= 96 {
+                offs.extend(r.off..r.end());
+            } else {
+                offs.extend(r.off..r.off + 24);
+                offs.extend(r.end() - 8..r.end());
+            }
+        }
+        offs.sort();
+        offs.dedup();
+        let inreg: HashSet<usize> = offs.iter().copied().collect();
+        for &o in &offs {
+            for val in byte_boundary_vals(frame[o]) {
+                push(Op::Set { off: o as u32, width: 1, val: val as u32 }, true);
+            }
+            for w in [2usize, 3, 4, 8] {
+                if (o..o + w).all(|x| inreg.contains(&x)) {
+                    push(Op::Fill { off: o as u32, width: w as u8, byte: 0xff }, false);
+                    push(Op::Fill { off: o as u32, width: w as u8, byte: 0x00 }, false);
+                }
+            }
+        }
+    }
+    // --- dedupe by effect ---
+    let mut seen: HashSet<u128> = HashSet::new();
+    seen.insert(crate::vx::bfs::hash128(frame));
+    let mut out: Vec<M> = Vec::with_capacity(raw.len());
+    let mut scratch: Vec<u8> = Vec::with_capacity(len + 300);
+    // boundary members first so that a duplicate keeps its boundary flag
+    raw.sort_by_key(|m| !m.boundary);
+    for m in raw {
+        if big {
+            // hashing 64 KiB per op is the dominant cost for big frames: ops are distinct by construction
+            // except identities, which are dropped by comparing the written bytes
+            let same = match m.op {
+                Op::Set { off, width, val } => off as usize + width as usize <= len && rd(frame, off as usize, width as usize) == val,
+                _ => false,
+            };
+            if !same && seen.insert(crate::vx::bfs::hash128(format!("{:?}", m.op).as_bytes())) {
+                out.push(m);
+            }
+            continue;
+        }
+        scratch.clear();
+        scratch.extend_from_slice(frame);
+        m.op.apply(&mut scratch);
+        if seen.insert(crate::vx::bfs::hash128(&scratch)) {
+            out.push(m);
+        }
+    }
+    out.sort_by_key(|m| m.op);
+    (out, info)
+}
+
+// ---------------------------------------------------------------------------
+// seed corpus
+// ---------------------------------------------------------------------------
+
+struct Unit {
+    cx: Cx,
+    label: String,
+    frame: Vec<u8>,
+    /// full-size frame: reduced menu, no pairs
+    big: bool,
+    /// member of the pair corpus (thorough)
+    pairs: bool,
+}
+
+fn raw_attr(flags: u8, code: u8, body: &[u8]) -> Vec<u8> {
+    let mut o = Vec::new();
+    if body.len() > 255 {
+        o.extend_from_slice(&[flags | 0x10, code]);
+        o.extend_from_slice(&(body.len() as u16).to_be_bytes());
+    } else {
+        o.extend_from_slice(&[flags & !0x10, code, body.len() as u8]);
+    }
+    o.extend_from_slice(body);
+    o
+}
+
+fn raw_update(withdrawn: &[u8], attrs: &[u8], nlri: &[u8]) -> Vec<u8> {
+    let total = 19 + 2 + withdrawn.len() + 2 + attrs.len() + nlri.len();
+    let mut f = vec![0xffu8; 16];
+    f.extend_from_slice(&(total as u16).to_be_bytes());
+    f.push(2);
+    f.extend_from_slice(&(withdrawn.len() as u16).to_be_bytes());
+    f.extend_from_slice(withdrawn);
+    f.extend_from_slice(&(attrs.len() as u16).to_be_bytes());
+    f.extend_from_slice(attrs);
+    f.extend_from_slice(nlri);
+    f
+}
+
+fn base_raw_attrs() -> Vec<u8> {
+    // ORIGIN IGP, AS_PATH [SEQ 65001] (4-byte), NEXT_HOP 192.0.2.1
+    let mut a = raw_attr(0x40, 1, &[0]);
+    a.extend(raw_attr(0x40, 2, &[2, 1, 0, 0, 0xfd, 0xe9]));
+    a.extend(raw_attr(0x40, 3, &[192, 0, 2, 1]));
+    a
+}
+
+fn tlv16(t: u16, v: &[u8]) -> Vec<u8> {
+    let mut o = t.to_be_bytes().to_vec();
+    o.extend_from_slice(&(v.len() as u16).to_be_bytes());
+    o.extend_from_slice(v);
+    o
+}
+fn tlv8_8(t: u8, v: &[u8]) -> Vec<u8> {
+    let mut o = vec![t, v.len() as u8];
+    o.extend_from_slice(v);
+    o
+}
+fn tlv8_16(t: u8, v: &[u8]) -> Vec<u8> {
+    let mut o = vec![t];
+    o.extend_from_slice(&(v.len() as u16).to_be_bytes());
+    o.extend_from_slice(v);
+    o
+}
+
+/// Hand-built seeds: attribute bodies in the layout THIS code base reads (where it
+/// differs from what mkmsg writes per RFC) and label-stack chains no encoder emits.
+fn hand_seeds() -> Vec<(Cx, String, Vec<u8>)> {
+    let fams = mk::families();
+    let fi = |f: Family| fams.iter().position(|x| *x == f).unwrap() as u8;
+    let cx4 = Cx { fam: fi(Family::IPV4), as4: true, xmsg: false, xnh: false, ap: false };
+    let mut out = Vec::new();
+    let nlri4 = [8u8, 10];
+    let mut with_attr = |name: &str, flags: u8, code: u8, body: Vec<u8>| {
+        let mut a = base_raw_attrs();
+        a.extend(raw_attr(flags, code, &body));
+        out.push((cx4, format!("hand:{name}"), raw_update(&[], &a, &nlri4)));
+    };
+    // BGP-LS attribute (type 29), layouts of ls.rs::parse_ls_attr
+    let range = |sid: &[u8]| {
+        let mut r = vec![0x00, 0x1f, 0x40, 1, sid.len() as u8];
+        r.extend_from_slice(sid);
+        r
+    };
+    let mut srcap = vec![0x80, 0x00];
+    srcap.extend(range(&[0x00, 0x00, 0x3e, 0x80]));
+    srcap.extend(range(&[0x03, 0xe8, 0x00]));
+    let mut ls1 = tlv16(1034, &srcap);
+    ls1.extend(tlv16(1036, &srcap));
+    with_attr("ls:sr-ranges", 0x80, 29, ls1);
+    let mut endx = vec![0x00, 0x05, 0x00, 0x00, 10, 0];
+    endx.extend_from_slice(&[0x20, 0x01, 0x0d, 0xb8, 0, 0, 0, 1, 0, 0, 0, 0, 0, 0, 0, 0]);
+    endx.extend(tlv16(1252, &[32, 16, 16, 0]));
+    let mut ls2 = tlv16(1106, &endx);
+    let mut peer = vec![0x80, 10, 0, 0, 0, 0, 0xfd, 0xe9, 192, 0, 2, 1];
+    peer.extend_from_slice(&[0x20, 0x01, 0x0d, 0xb8, 0, 0, 0, 2, 0, 0, 0, 0, 0, 0, 0, 0]);
+    ls2.extend(tlv16(1104, &peer));
+    ls2.extend(tlv16(1101, &[0xc0, 1, 0, 0, 0x00, 0x5d, 0xc0]));
+    ls2.extend(tlv16(1102, &[0x00, 1, 0, 0, 0, 0, 0, 42]));
+    ls2.extend(tlv16(1095, &[7]));
+    ls2.extend(tlv16(1095, &[0, 7]));
+    ls2.extend(tlv16(1115, &[0, 0, 0, 1, 0, 0, 0, 9]));
+    ls2.extend(tlv16(1116, &[0, 0, 0, 3]));
+    with_attr("ls:srv6+peer-sids", 0x80, 29, ls2);
+    // tunnel encapsulation (type 23): SR policy with both binding SID forms, type-B segment
+    let v6 = [0x20u8, 0x01, 0x0d, 0xb8, 0, 0, 0, 3, 0, 0, 0, 0, 0, 0, 0, 0];
+    let mut segb = vec![0x40, 0];
+    segb.extend_from_slice(&v6);
+    segb.extend_from_slice(&[0, 19, 0, 0, 32, 16, 16, 0]);
+    let mut seglist = vec![0u8];
+    seglist.extend(tlv8_8(9, &[0, 0, 0, 0, 0, 1]));
+    seglist.extend(tlv8_8(13, &segb));
+    seglist.extend(tlv8_8(1, &[0, 0, 0x03, 0xe8, 0, 0]));
+    let mut bsid6 = vec![0u8, 0];
+    bsid6.extend_from_slice(&v6);
+    let mut bsid20 = bsid6.clone();
+    bsid20.extend_from_slice(&[0, 19, 32, 16, 16, 0]);
+    let mut sr = tlv8_8(12, &[0, 0, 0, 0, 0, 100]);
+    sr.extend(tlv8_8(13, &bsid6));
+    sr.extend(tlv8_8(20, &bsid20));
+    sr.extend(tlv8_8(14, &[0, 0, 1]));
+    sr.extend(tlv8_8(15, &[10, 0]));
+    sr.extend(tlv8_16(128, &seglist));
+    sr.extend(tlv8_16(129, b"\0cp-name"));
+    sr.extend(tlv8_16(130, b"\0policy"));
+    with_attr("tunnel:sr-policy-srv6", 0xc0, 23, tlv16(15, &sr));
+    // prefix-SID (type 40) with L2 service TLV and an unknown sub-sub-TLV
+    let mut info = vec![0u8];
+    info.extend_from_slice(&v6);
+    info.extend_from_slice(&[0, 0, 19, 0]);
+    info.extend(tlv8_16(1, &[40, 24, 16, 0, 16, 64]));
+    info.extend(tlv8_16(9, &[1, 2]));
+    let mut l2 = vec![0u8];
+    l2.extend(tlv8_16(1, &info));
+    l2.extend(tlv8_16(7, &[5]));
+    with_attr("psid:srv6-l2", 0xc0, 40, tlv8_16(6, &l2));
+    // AS4_PATH / AS4_AGGREGATOR next to a 2-byte AS_PATH (OLD speaker)
+    {
+        let cx2 = Cx { as4: false, ..cx4 };
+        let mut a = raw_attr(0x40, 1, &[0]);
+        a.extend(raw_attr(0x40, 2, &[2, 2, 0x5b, 0xa0, 0xfd, 0xe9]));
+        a.extend(raw_attr(0x40, 3, &[192, 0, 2, 1]));
+        a.extend(raw_attr(0xc0, 7, &[0x5b, 0xa0, 192, 0, 2, 2]));
+        a.extend(raw_attr(0xc0, 17, &[2, 2, 0xfa, 0x56, 0xea, 0x00, 0, 0, 0xfd, 0xe9]));
+        a.extend(raw_attr(0xc0, 18, &[0xfa, 0x56, 0xea, 0x00, 192, 0, 2, 2]));
+        out.push((cx2, "hand:as4-reconcile".into(), raw_update(&[], &a, &nlri4)));
+    }
+    // legacy withdrawn + attributes + NLRI in one frame
+    out.push((cx4, "hand:withdraw+reach".into(), raw_update(&[24, 10, 1, 1, 0], &base_raw_attrs(), &[24, 10, 2, 2, 32, 10, 3, 3, 3])));
+    // label-stack chains (RFC 3107 stacks; bottom-of-stack only on the last label)
+    for (f, has_rd, plen) in [(Family::IPV4_VPN, true, 24usize), (Family::IPV6_VPN, true, 64), (Family::IPV4_MPLS, false, 24), (Family::IPV6_MPLS, false, 64)] {
+        for k in [2usize, 7, 8, 10, 11] {
+            let bits = k * 24 + if has_rd { 64 } else { 0 } + plen;
+            let mut n = vec![bits.min(255) as u8];
+            for i in 0..k {
+                let l = ((1000 + i as u32) << 4) | (i + 1 == k) as u32;
+                n.extend_from_slice(&[(l >> 16) as u8, (l >> 8) as u8, l as u8]);
+            }
+            if has_rd {
+                n.extend_from_slice(&[0, 0, 0xfd, 0xe8, 0, 0, 0, 100]);
+            }
+            n.extend(std::iter::repeat(0x0a).take(plen / 8));
+            let v6nh = f.afi() == Family::AFI_IP6;
+            let mut nh: Vec<u8> = if has_rd { vec![0; 8] } else { vec![] };
+            if v6nh { nh.extend_from_slice(&v6) } else { nh.extend_from_slice(&[192, 0, 2, 1]) }
+            let mut mp = f.afi().to_be_bytes().to_vec();
+            mp.push(f.safi());
+            mp.push(nh.len() as u8);
+            mp.extend(nh);
+            mp.push(0);
+            mp.extend_from_slice(&n);
+            let mut a = raw_attr(0x40, 1, &[0]);
+            a.extend(raw_attr(0x40, 2, &[2, 1, 0, 0, 0xfd, 0xe9]));
+            a.extend(raw_attr(0x80, 14, &mp));
+            let cx = Cx { fam: fi(f), ..cx4 };
+            out.push((cx, format!("hand:label-chain:{}:{k}", mk::family_name(f)), raw_update(&[], &a, &[])));
+            let mut mu = f.afi().to_be_bytes().to_vec();
+            mu.push(f.safi());
+            mu.extend_from_slice(&n);
+            out.push((cx, format!("hand:label-chain-unreach:{}:{k}", mk::family_name(f)), raw_update(&[], &raw_attr(0x80, 15, &mu), &[])));
+        }
+    }
+    out
+}
+
+fn corpus(thorough: bool, notes: &mut Vec<String>) -> Vec<Unit> {
+    let fams = mk::families();
+    let mut units: Vec<Unit> = Vec::new();
+    let mut seen: HashSet<((u8, bool, bool, bool), Vec<u8>)> = HashSet::new();
+    let mut enc_fail: BTreeMap<String, u64> = BTreeMap::new();
+    let mut add = |units: &mut Vec<Unit>, cx: Cx, label: String, frame: Vec<u8>, big: bool, pairs: bool| {
+        if frame.len() < 19 {
+            return;
+        }
+        if seen.insert((cx.rx_key(), frame.clone())) {
+            units.push(Unit { cx, label, frame, big, pairs });
+        }
+    };
+    let mut enc = |codec: &mut PeerCodec, msg: &Message, what: &str| -> Vec<Vec<u8>> {
+        match report::catch(|| mk::encode(codec, msg)) {
+            Ok(Ok(fr)) => fr,
+            Ok(Err(e)) => {
+                *enc_fail.entry(format!("{what}: {}", report::trunc(&e, 60))).or_insert(0) += 1;
+                vec![]
+            }
+            Err(p) => {
+                *enc_fail.entry(format!("{what}: encoder panic {}", report::trunc(&p, 80))).or_insert(0) += 1;
+                vec![]
+            }
+        }
+    };
+    let base = mk::base_attrs();
+    // per-family codecs
+    for (fi, f) in fams.iter().enumerate() {
+        let fname = mk::family_name(*f);
+        for bits in 0..16u32 {
+            let b = |n: u32| bits >> n & 1 == 1;
+            let cx = Cx { fam: fi as u8, as4: !b(0), xmsg: b(1), xnh: b(2), ap: b(3) };
+            let mut tx = cx.codec();
+            let pair_cx = cx.as4 && !cx.xmsg && !cx.xnh;
+            let mut named = mk::nlris_named(*f);
+            named.extend(mk::nlris_code_only(*f));
+            for (nm, n) in &named {
+                let e = mk::path_entries(std::slice::from_ref(n), cx.ap);
+                for fr in enc(&mut tx, &mk::reach(*f, e.clone(), mk::default_nexthop(*f), &base), "reach") {
+                    add(&mut units, cx, format!("{fname}:reach:{nm}"), fr, false, pair_cx);
+                }
+                for fr in enc(&mut tx, &mk::unreach(*f, e), "unreach") {
+                    add(&mut units, cx, format!("{fname}:unreach:{nm}"), fr, false, pair_cx);
+                }
+            }
+            for (nm, m) in mk::updates(*f, 3, false, cx.ap, &base) {
+                for fr in enc(&mut tx, &m, "updates3") {
+                    add(&mut units, cx, format!("{fname}:{nm}"), fr, false, pair_cx);
+                }
+            }
+            if let Some(n) = mk::nlris(*f, mk::NlriSize::Min).into_iter().next() {
+                let e = mk::path_entries(&[n], cx.ap);
+                for nh in mk::nexthops(*f) {
+                    if nh.needs_ext_nh && !cx.xnh {
+                        continue;
+                    }
+                    for fr in enc(&mut tx, &mk::reach(*f, e.clone(), nh.nexthop, &base), "nexthop") {
+                        add(&mut units, cx, format!("{fname}:nh:{}", nh.name), fr, false, false);
+                    }
+                }
+                if (*f == Family::IPV4 || *f == Family::IPV6) && !cx.xnh && !cx.ap {
+                    for (nm, set) in mk::attribute_sets() {
+                        for fr in enc(&mut tx, &mk::reach(*f, e.clone(), mk::default_nexthop(*f), &set), "attrs") {
+                            let small = fr.len() <= 160;
+                            add(&mut units, cx, format!("{fname}:attrs:{nm}"), fr, false, !cx.xmsg && *f == Family::IPV4 && small);
+                        }
+                    }
+                    for (nm, vals) in mk::attr_kinds() {
+                        if mk::attr_kind_fate(nm) != mk::AttrFate::As4 {
+                            continue;
+                        }
+                        for (i, a) in vals.iter().enumerate() {
+                            let mut set = base.clone();
+                            set.push(a.clone());
+                            for fr in enc(&mut tx, &mk::reach(*f, e.clone(), mk::default_nexthop(*f), &set), "attrs-as4") {
+                                add(&mut units, cx, format!("{fname}:attrs:{nm}#{i}"), fr, false, false);
+                            }
+                        }
+                    }
+                }
+            }
+        }
+    }
+    // all-families codecs: AFI / SAFI mutations reach every family's NLRI decoder
+    for bits in 0..4u32 {
+        let cx = Cx { fam: ALL_FAM, as4: bits & 1 == 0, xmsg: false, xnh: false, ap: bits & 2 != 0 };
+        let mut tx = cx.codec();
+        for f in &fams {
+            let fname = mk::family_name(*f);
+            for (nm, m) in mk::updates(*f, 2, false, cx.ap, &base) {
+                for fr in enc(&mut tx, &m, "all-fam") {
+                    add(&mut units, cx, format!("all/{fname}:{nm}"), fr, false, cx.as4);
+                }
+            }
+            if let Some(n) = mk::nlris(*f, mk::NlriSize::Max).into_iter().next() {
+                let e = mk::path_entries(&[n], cx.ap);
+                for fr in enc(&mut tx, &mk::reach(*f, e, mk::default_nexthop(*f), &base), "all-fam") {
+                    add(&mut units, cx, format!("all/{fname}:reach:max"), fr, false, false);
+                }
+            }
+        }
+    }
+    // OPEN / NOTIFICATION / KEEPALIVE / ROUTE-REFRESH (codec-independent apart from the size limit)
+    for xmsg in [false, true] {
+        let cx = Cx { fam: 0, as4: true, xmsg, xnh: false, ap: false };
+        let mut tx = cx.codec();
+        for (nm, m) in mk::opens() {
+            for fr in enc(&mut tx, &m, "open") {
+                let small = fr.len() <= 120;
+                add(&mut units, cx, format!("open:{nm}"), fr, false, !xmsg && small);
+            }
+        }
+        for (nm, m) in mk::notifications() {
+            for fr in enc(&mut tx, &m, "notification") {
+                let small = fr.len() <= 40;
+                add(&mut units, cx, format!("notification:{nm}"), fr, false, !xmsg && small);
+            }
+        }
+        for fr in enc(&mut tx, &mk::keepalive(), "keepalive") {
+            add(&mut units, cx, "keepalive".into(), fr, false, !xmsg);
+        }
+        for (nm, m) in mk::route_refreshes() {
+            for fr in enc(&mut tx, &m, "route-refresh") {
+                add(&mut units, cx, format!("route-refresh:{nm}"), fr, false, !xmsg && nm == "ipv6");
+            }
+        }
+    }
+    for (cx, label, frame) in hand_seeds() {
+        add(&mut units, cx, label, frame, false, true);
+    }
+    // full-size frames
+    let big_fams: Vec<Family> = if thorough {
+        fams.clone()
+    } else {
+        vec![Family::IPV4, Family::IPV6, Family::IPV4_VPN, Family::L2VPN_EVPN, Family::IPV4_FLOWSPEC, Family::LS]
+    };
+    for f in &big_fams {
+        let fi = fams.iter().position(|x| x == f).unwrap() as u8;
+        let fname = mk::family_name(*f);
+        let mut variants = vec![(false, false), (false, true)];
+        if thorough && matches!(*f, Family::IPV4 | Family::IPV6_VPN | Family::L2VPN_EVPN) {
+            variants.push((true, false));
+        }
+        for (xmsg, ap) in variants {
+            let cx = Cx { fam: fi, as4: true, xmsg, xnh: false, ap };
+            let mut tx = cx.codec();
+            let n = if xmsg { 16000 } else { 1100 };
+            for (nm, m) in mk::updates(*f, n, false, ap, &base) {
+                let frs = enc(&mut tx, &m, "big");
+                if frs.len() >= 2 {
+                    add(&mut units, cx, format!("{fname}:big:{nm}:first"), frs[0].clone(), true, false);
+                }
+            }
+        }
+    }
+    for (k, v) in &enc_fail {
+        notes.push(format!("corpus: encoder refused a seed {v}x ({k})"));
+    }
+    units
+}
+
+// ---------------------------------------------------------------------------
+// step budget: a watchdog that reports a decoder call which does not return
+// ---------------------------------------------------------------------------
+
+#[repr(align(128))]
+struct Slot {
+    /// (pass << 56) | (unit << 28) | index ; 0 = idle
+    case: AtomicU64,
+    tick: AtomicU64,
+}
+const NSLOT: usize = 64;
+static SLOTS: [Slot; NSLOT] = [const { Slot { case: AtomicU64::new(0), tick: AtomicU64::new(0) } }; NSLOT];
+static NEXT_SLOT: AtomicUsize = AtomicUsize::new(0);
+static WATCH_ON: AtomicBool = AtomicBool::new(false);
+static UNITS: OnceLock<Vec<Unit>> = OnceLock::new();
+static FOUND: Mutex<Vec<Violation>> = Mutex::new(Vec::new());
+/// descriptions of the non-BGP cases currently running, by slot (rare updates)
+static SLOT_TEXT: Mutex<Vec<String>> = Mutex::new(Vec::new());
+
+thread_local! {
+    static MY_SLOT: usize = NEXT_SLOT.fetch_add(1, Ordering::Relaxed) % NSLOT;
+    static CACHE: RefCell<Option<Cache>> = const { RefCell::new(None) };
+}
+
+const P_SINGLE: u64 = 1;
+const P_PAIR: u64 = 2;
+const P_STREAM: u64 = 3;
+const P_OTHER: u64 = 4;
+
+#[inline]
+fn beat(pass: u64, unit: usize, idx: usize) {
+    MY_SLOT.with(|s| {
+        SLOTS[*s].case.store(pass << 56 | (unit as u64) << 28 | idx as u64, Ordering::Relaxed);
+        SLOTS[*s].tick.fetch_add(1, Ordering::Relaxed);
+    });
+}
+fn idle() {
+    MY_SLOT.with(|s| {
+        SLOTS[*s].case.store(0, Ordering::Relaxed);
+        SLOTS[*s].tick.fetch_add(1, Ordering::Relaxed);
+    });
+}
+
+fn stall_limit() -> std::time::Duration {
+    std::time::Duration::from_secs(std::env::var("VERIF_C03_STALL_S").ok().and_then(|s| s.parse().ok()).unwrap_or(20))
+}
+
+/// Runs until the process exits.  If one evaluation does not finish within the
+/// budget, writes a result that contains the nontermination violation (plus all
+/// violations found so far) and ends the process: the spinning thread cannot be stopped.
+fn watchdog() {
+    let mut last: Vec<(u64, std::time::Instant)> = (0..NSLOT).map(|_| (0, std::time::Instant::now())).collect();
+    let limit = stall_limit();
+    loop {
+        std::thread::sleep(std::time::Duration::from_millis(250));
+        if !WATCH_ON.load(Ordering::Relaxed) {
+            continue;
+        }
+        for i in 0..NSLOT {
+            let t = SLOTS[i].tick.load(Ordering::Relaxed);
+            let c = SLOTS[i].case.load(Ordering::Relaxed);
+            if t != last[i].0 || c == 0 {
+                last[i] = (t, std::time::Instant::now());
+                continue;
+            }
+            if last[i].1.elapsed() >= limit {
+                let (decoder, case) = describe_case(c, i);
+                let mut rep = Report::new("C03", "hx-c03");
+                rep.rule = RULE.into();
+                rep.exhaustive = false;
+                rep.caps_hit.push(format!("step budget: one decoder call did not return within {} s; the sweep was abandoned", limit.as_secs()));
+                for v in FOUND.lock().unwrap().iter() {
+                    rep.violation(v.clone());
+                }
+                rep.violation(Violation {
+                    sig: format!("C03/nontermination/{decoder}"),
+                    what: format!("a single decoder call did not return within {} s (step budget)", limit.as_secs()),
+                    case,
+                });
+                let profile = if cfg!(debug_assertions) { "dev" } else { "release" };
+                rep.part = format!("{}-{}", rep.part, profile);
+                rep.finish();
+                std::process::exit(0);
+            }
+        }
+    }
+}
+
+fn describe_case(c: u64, slot: usize) -> (String, String) {
+    let pass = c >> 56;
+    let unit = ((c >> 28) & 0x0fff_ffff) as usize;
+    let idx = (c & 0x0fff_ffff) as usize;
+    if pass == P_OTHER {
+        let t = SLOT_TEXT.lock().unwrap().get(slot).cloned().unwrap_or_default();
+        let d = t.split('|').next().unwrap_or("bgp").to_string();
+        return (d, t);
+    }
+    let Some(units) = UNITS.get() else { return ("bgp".into(), format!("unit {unit} index {idx}")) };
+    let u = &units[unit];
+    let (m, _) = menu(&u.frame, &u.cx, u.big);
+    let mut b = u.frame.clone();
+    match pass {
+        P_SINGLE => {
+            if let Some(x) = m.get(idx) {
+                x.op.apply(&mut b);
+            }
+            ("bgp".into(), format!("bgp|{}|{}", u.cx.name(), hex(&b)))
+        }
+        P_PAIR => {
+            // the inner index is not recorded: give the outer mutation (replay all inner ones by hand)
+            if let Some(x) = m.get(idx) {
+                x.op.apply(&mut b);
+            }
+            ("bgp".into(), format!("bgp|{}|{}", u.cx.name(), hex(&b)))
+        }
+        _ => ("bgp".into(), format!("bgp|{}|{},{}", u.cx.name(), hex(&b[..idx.min(b.len())]), hex(&b[idx.min(b.len())..]))),
+    }
+}
+
+thread_local! {
+    static MY_BEST: RefCell<BTreeMap<String, (usize, String)>> = const { RefCell::new(BTreeMap::new()) };
+}
+
+/// Record a violation.  The witness kept per signature is the shortest case,
+/// ties broken by string order: independent of thread scheduling.
+fn record(rep: &mut Report, tail: String, what: String, case: String) {
+    let sig = format!("C03/{tail}");
+    let better_local = MY_BEST.with(|b| {
+        let mut b = b.borrow_mut();
+        match b.get(&sig) {
+            Some((l, c)) if (*l, c.as_str()) <= (case.len(), case.as_str()) => false,
+            _ => {
+                b.insert(sig.clone(), (case.len(), case.clone()));
+                true
+            }
+        }
+    });
+    if better_local {
+        let mut f = FOUND.lock().unwrap();
+        match f.iter_mut().find(|v| v.sig == sig) {
+            Some(v) => {
+                if (case.len(), case.as_str()) < (v.case.len(), v.case.as_str()) {
+                    v.what = what.clone();
+                    v.case = case.clone();
+                }
+            }
+            None => f.push(Violation { sig: sig.clone(), what: what.clone(), case: case.clone() }),
+        }
+    }
+    rep.violation(Violation { sig, what, case });
+}
+
+/// install the globally best witness of every signature
+fn canonical_witnesses(rep: &mut Report) {
+    let f = FOUND.lock().unwrap();
+    for v in f.iter() {
+        if let Some((old, _)) = rep.violations.get_mut(&v.sig) {
+            *old = v.clone();
+        }
+    }
+}
+
+// ---------------------------------------------------------------------------
+// passes over the BGP corpus
+// ---------------------------------------------------------------------------
+
+struct Cache {
+    unit: usize,
+    has_menu: bool,
+    menu: Vec<M>,
+    bidx: Vec<u32>,
+    rx: PeerCodec,
+}
+
+fn with_cache<R>(unit: usize, need_menu: bool, f: impl FnOnce(&mut Cache) -> R) -> R {
+    CACHE.with(|c| {
+        let mut c = c.borrow_mut();
+        let u = &UNITS.get().unwrap()[unit];
+        if c.as_ref().map(|x| x.unit) != Some(unit) {
+            *c = Some(Cache { unit, has_menu: false, menu: Vec::new(), bidx: Vec::new(), rx: u.cx.codec() });
+        }
+        let c = c.as_mut().unwrap();
+        if need_menu && !c.has_menu {
+            let (m, _) = menu(&u.frame, &u.cx, u.big);
+            c.bidx = m.iter().enumerate().filter(|(_, x)| x.boundary).map(|(i, _)| i as u32).collect();
+            c.menu = m;
+            c.has_menu = true;
+        }
+        f(c)
+    })
+}
+
+fn bgp_case(cx: &Cx, chunks: &[&[u8]]) -> String {
+    let h: Vec<String> = chunks.iter().map(|c| hex(c)).collect();
+    format!("bgp|{}|{}", cx.name(), h.join(","))
+}
+
+const CHUNK: usize = 1024;
+
+fn pass_singles(units: &'static [Unit], sizes: &[usize], rep: &mut Report) {
+    let mut items: Vec<(u32, u32, u32)> = Vec::new();
+    for (ui, n) in sizes.iter().enumerate() {
+        let step = if units[ui].big { 64 } else { CHUNK };
+        let mut s = 0;
+        while s < *n {
+            items.push((ui as u32, s as u32, (s + step).min(*n) as u32));
+            s += step;
+        }
+    }
+    enumr::par_range(items.len() as u64, rep, |i, r| {
+        let (ui, s, e) = items[i as usize];
+        let u = &units[ui as usize];
+        let mut acc = Acc::new();
+        let mut buf: Vec<u8> = Vec::with_capacity(u.frame.len() + 300);
+        with_cache(ui as usize, true, |c| {
+            for mi in s..e {
+                buf.clear();
+                buf.extend_from_slice(&u.frame);
+                c.menu[mi as usize].op.apply(&mut buf);
+                beat(P_SINGLE, ui as usize, mi as usize);
+                if let Some((tail, what)) = eval_bgp(&mut c.rx, u.cx.max_len(), &[&buf], &mut acc) {
+                    record(r, tail, format!("{what} [seed {} / {:?}]", u.label, c.menu[mi as usize].op), bgp_case(&u.cx, &[&buf]));
+                }
+                r.distinct_nontrivial += 1;
+                r.add("cases:single mutations", 1);
+            }
+        });
+        idle();
+        acc.flush(r);
+    });
+}
+
+fn pass_pairs(units: &'static [Unit], sizes: &[usize], rep: &mut Report) {
+    let mut items: Vec<(u32, u32)> = Vec::new();
+    for (ui, n) in sizes.iter().enumerate() {
+        if units[ui].pairs && !units[ui].big {
+            for a in 0..*n {
+                items.push((ui as u32, a as u32));
+            }
+        }
+    }
+    enumr::par_range(items.len() as u64, rep, |i, r| {
+        let (ui, ai) = items[i as usize];
+        let u = &units[ui as usize];
+        let mut acc = Acc::new();
+        let mut base: Vec<u8> = Vec::with_capacity(u.frame.len() + 300);
+        let mut buf: Vec<u8> = Vec::with_capacity(u.frame.len() + 300);
+        let mut n = 0u64;
+        with_cache(ui as usize, true, |c| {
+            let a = c.menu[ai as usize];
+            let Some((a0, a1)) = a.op.range() else { return };
+            base.extend_from_slice(&u.frame);
+            a.op.apply(&mut base);
+            beat(P_PAIR, ui as usize, ai as usize);
+            for &bi in &c.bidx {
+                if bi == ai || (a.boundary && bi < ai) {
+                    continue;
+                }
+                let b = c.menu[bi as usize];
+                match b.op {
+                    Op::Resize(nn) => {
+                        if a1 > nn as usize || a0 < 18 && a1 > 16 {
+                            continue;
+                        }
+                    }
+                    _ => {
+                        let Some((b0, b1)) = b.op.range() else { continue };
+                        if a0 < b1 && b0 < a1 {
+                            continue;
+                        }
+                    }
+                }
+                buf.clear();
+                buf.extend_from_slice(&base);
+                b.op.apply(&mut buf);
+                SLOTS_TICK();
+                n += 1;
+                if let Some((tail, what)) = eval_bgp(&mut c.rx, u.cx.max_len(), &[&buf], &mut acc) {
+                    record(r, tail, format!("{what} [seed {} / {:?} + {:?}]", u.label, a.op, b.op), bgp_case(&u.cx, &[&buf]));
+                }
+            }
+        });
+        idle();
+        r.distinct_nontrivial += n;
+        r.add("cases:mutation pairs", n);
+        acc.flush(r);
+    });
+}
+
+#[allow(non_snake_case)]
+#[inline]
+fn SLOTS_TICK() {
+    MY_SLOT.with(|s| {
+        SLOTS[*s].tick.fetch_add(1, Ordering::Relaxed);
+    });
+}
+
+fn pass_stream(units: &'static [Unit], rep: &mut Report) {
+    let ka: Vec<u8> = {
+        let mut k = vec![0xffu8; 16];
+        k.extend_from_slice(&[0, 19, 4]);
+        k
+    };
+    // items: (unit, split range)
+    let mut items: Vec<(u32, u32, u32)> = Vec::new();
+    for (ui, u) in units.iter().enumerate() {
+        let step = if u.frame.len() > 8192 { 256 } else { 4096 };
+        let mut s = 0;
+        while s <= u.frame.len() {
+            items.push((ui as u32, s as u32, (s + step).min(u.frame.len() + 1) as u32));
+            s += step;
+        }
+    }
+    enumr::par_range(items.len() as u64, rep, |i, r| {
+        let (ui, s, e) = items[i as usize];
+        let u = &units[ui as usize];
+        let f = &u.frame;
+        let mut acc = Acc::new();
+        with_cache(ui as usize, false, |c| {
+            let max = u.cx.max_len();
+            for k in s..e {
+                let k = k as usize;
+                beat(P_STREAM, ui as usize, k);
+                let chunks: [&[u8]; 2] = [&f[..k], &f[k..]];
+                if let Some((tail, what)) = eval_bgp(&mut c.rx, max, &chunks, &mut acc) {
+                    record(r, tail, format!("{what} [seed {} split at {k}]", u.label), bgp_case(&u.cx, &chunks));
+                }
+                r.add("cases:stream splits", 1);
+                r.distinct_nontrivial += 1;
+            }
+            if s == 0 {
+                // glued frames, header only, byte-by-byte delivery
+                let mut glued = f.clone();
+                glued.extend_from_slice(f);
+                let mut g2 = ka.clone();
+                g2.extend_from_slice(f);
+                g2.extend_from_slice(&ka);
+                let hdr: &[u8] = &f[..19];
+                let sets: Vec<Vec<&[u8]>> = vec![vec![&glued], vec![&g2], vec![hdr], vec![hdr, &f[19..]]];
+                for ch in &sets {
+                    beat(P_STREAM, ui as usize, 0);
+                    if let Some((tail, what)) = eval_bgp(&mut c.rx, max, ch, &mut acc) {
+                        record(r, tail, format!("{what} [seed {} glued / header-only]", u.label), bgp_case(&u.cx, ch));
+                    }
+                    r.add("cases:stream glued/header-only", 1);
+                    r.distinct_nontrivial += 1;
+                }
+                if f.len() <= 512 {
+                    let bytes: Vec<&[u8]> = f.chunks(1).collect();
+                    if let Some((tail, what)) = eval_bgp(&mut c.rx, max, &bytes, &mut acc) {
+                        record(r, tail, format!("{what} [seed {} byte by byte]", u.label), bgp_case(&u.cx, &bytes));
+                    }
+                    r.add("cases:stream byte-by-byte", 1);
+                    r.distinct_nontrivial += 1;
+                }
+            }
+        });
+        idle();
+        acc.flush(r);
+    });
+}
+
+// ---------------------------------------------------------------------------
+// RTR
+// ---------------------------------------------------------------------------
+
+/// A PDU of the given type built per RFC 6810 / 8210 / 8210bis where the type is
+/// defined (checked against wire::read_rtr), header + 4 body bytes otherwise.
+fn rtr_pdu(version: u8, t: u8) -> Vec<u8> {
+    let hdr = |hdr16: u16, len: u32| {
+        let mut v = vec![version, t];
+        v.extend_from_slice(&hdr16.to_be_bytes());
+        v.extend_from_slice(&len.to_be_bytes());
+        v
+    };
+    match t {
+        0 | 1 => {
+            let mut v = hdr(7, 12);
+            v.extend_from_slice(&42u32.to_be_bytes());
+            v
+        }
+        2 | 8 => hdr(0, 8),
+        3 => hdr(7, 8),
+        4 => {
+            let mut v = hdr(0, 20);
+            v.extend_from_slice(&[1, 24, 24, 0, 192, 0, 2, 0]);
+            v.extend_from_slice(&65001u32.to_be_bytes());
+            v
+        }
+        6 => {
+            let mut v = hdr(0, 32);
+            v.extend_from_slice(&[1, 48, 48, 0]);
+            v.extend_from_slice(&[0x20, 0x01, 0x0d, 0xb8, 0, 0, 0, 0, 0, 0, 0, 0, 0, 0, 0, 0]);
+            v.extend_from_slice(&65001u32.to_be_bytes());
+            v
+        }
+        7 => {
+            if version == 0 {
+                let mut v = hdr(7, 12);
+                v.extend_from_slice(&42u32.to_be_bytes());
+                v
+            } else {
+                let mut v = hdr(7, 24);
+                for x in [42u32, 3600, 600, 7200] {
+                    v.extend_from_slice(&x.to_be_bytes());
+                }
+                v
+            }
+        }
+        9 => {
+            let mut v = hdr(0x0100, 8 + 20 + 4 + 16);
+            v.extend_from_slice(&[0xab; 20]);
+            v.extend_from_slice(&65001u32.to_be_bytes());
+            v.extend_from_slice(&[0x30; 16]);
+            v
+        }
+        10 => {
+            let inner = {
+                let mut i = vec![version, 2, 0, 0];
+                i.extend_from_slice(&8u32.to_be_bytes());
+                i
+            };
+            let text = b"bad";
+            let mut v = hdr(2, (8 + 4 + inner.len() + 4 + text.len()) as u32);
+            v.extend_from_slice(&(inner.len() as u32).to_be_bytes());
+            v.extend_from_slice(&inner);
+            v.extend_from_slice(&(text.len() as u32).to_be_bytes());
+            v.extend_from_slice(text);
+            v
+        }
+        11 => {
+            let mut v = hdr(0x0100, 8 + 4 + 8);
+            for x in [65001u32, 65002, 65003] {
+                v.extend_from_slice(&x.to_be_bytes());
+            }
+            v
+        }
+        _ => {
+            let mut v = hdr(0, 12);
+            v.extend_from_slice(&[1, 2, 3, 4]);
+            v
+        }
+    }
+}
+
+fn rtr_case(chunks: &[&[u8]]) -> String {
+    let h: Vec<String> = chunks.iter().map(|c| hex(c)).collect();
+    format!("rtr|{}", h.join(","))
+}
+
+fn set_slot_text(s: String) {
+    MY_SLOT.with(|i| {
+        let mut t = SLOT_TEXT.lock().unwrap();
+        if t.len() < NSLOT {
+            t.resize(NSLOT, String::new());
+        }
+        t[*i] = s;
+    });
+}
+
+fn pass_rtr(rep: &mut Report) {
+    let versions = [0u8, 1, 2, 3, 255];
+    let n = versions.len() as u64 * 256;
+    let valid_ok = AtomicU64::new(0);
+    let valid_n = AtomicU64::new(0);
+    enumr::par_range(n, rep, |i, r| {
+        let version = versions[(i / 256) as usize];
+        let t = (i % 256) as u8;
+        let pdu = rtr_pdu(version, t);
+        let truelen = pdu.len() as u32;
+        if version <= 2 && rtr_type_defined(version, t) {
+            valid_n.fetch_add(1, Ordering::Relaxed);
+            if wire::read_rtr(&pdu).is_ok() {
+                valid_ok.fetch_add(1, Ordering::Relaxed);
+            } else {
+                r.notes.push(format!("rtr: harness-built PDU type {t} v{version} is not accepted by wire::read_rtr"));
+            }
+        }
+        let mut lens: Vec<u32> = vec![0, 1, 7, 8, 9, 12, 16, 20, 24, 32, truelen.wrapping_sub(1), truelen, truelen + 1, 0x7fff_ffff, 0x8000_0000, u32::MAX];
+        lens.sort();
+        lens.dedup();
+        let mut bufs: Vec<Vec<u8>> = Vec::new();
+        for l in &lens {
+            let mut b = pdu.clone();
+            b[4..8].copy_from_slice(&l.to_be_bytes());
+            bufs.push(b.clone());
+            if (8..=64).contains(l) && *l != truelen {
+                b.resize(*l as usize, 0);
+                bufs.push(b);
+            }
+        }
+        // glued: this PDU followed by a valid Cache Reset / preceded by one
+        let reset = rtr_pdu(1, 8);
+        let mut g = pdu.clone();
+        g.extend_from_slice(&reset);
+        bufs.push(g);
+        let mut g = reset.clone();
+        g.extend_from_slice(&pdu);
+        bufs.push(g);
+        let mut seen: HashSet<Vec<u8>> = HashSet::new();
+        let mut evals = 0u64;
+        let mut hist = [0u64; 4];
+        beat(P_OTHER, 0, i as usize);
+        for b in bufs {
+            if !seen.insert(b.clone()) {
+                continue;
+            }
+            set_slot_text(format!("rtr|{}", hex(&b)));
+            for k in 0..=b.len() {
+                let chunks: Vec<&[u8]> = if k == 0 || k == b.len() { vec![&b[..]] } else { vec![&b[..k], &b[k..]] };
+                if k == b.len() && k != 0 {
+                    continue; // same as k == 0
+                }
+                SLOTS_TICK();
+                if let Some((tail, what)) = eval_rtr(&chunks, &mut evals, &mut hist) {
+                    record(r, tail, what, rtr_case(&chunks));
+                }
+                r.add("cases:rtr", 1);
+                r.distinct_nontrivial += 1;
+            }
+            // byte by byte
+            let bytes: Vec<&[u8]> = b.chunks(1).collect();
+            if let Some((tail, what)) = eval_rtr(&bytes, &mut evals, &mut hist) {
+                record(r, tail, what, rtr_case(&bytes));
+            }
+            r.add("cases:rtr", 1);
+            r.distinct_nontrivial += 1;
+        }
+        idle();
+        r.evaluations += evals;
+        for (k, v) in ["rtr:message", "rtr:need-more", "rtr:error", "rtr:panic"].iter().zip(hist) {
+            if v > 0 {
+                r.add(k, v);
+            }
+        }
+    });
+    rep.notes.push(format!(
+        "rtr: {}/{} harness-built PDUs of RFC-defined (version, type) pairs accepted by the independent reader wire::read_rtr",
+        valid_ok.load(Ordering::Relaxed),
+        valid_n.load(Ordering::Relaxed)
+    ));
+}
+
+// ---------------------------------------------------------------------------
+// BFD
+// ---------------------------------------------------------------------------
+
+fn pass_bfd(rep: &mut Report) {
+    // RFC 5880 §4.1: vers/diag, sta/flags, detect mult, length, my disc, your disc, 3 intervals
+    let mut bases: Vec<Vec<u8>> = Vec::new();
+    for sta in 0..4u8 {
+        for flags in [0u8, 0x20, 0x10, 0x08, 0x04, 0x02, 0x01] {
+            let mut b = vec![0x20 | sta, sta << 6 | flags, 3, 24];
+            for x in [0x1234_5678u32, 0xabcd_ef12, 100_000, 200_000, 0] {
+                b.extend_from_slice(&x.to_be_bytes());
+            }
+            bases.push(b);
+        }
+    }
+    let mut seen: HashSet<Vec<u8>> = HashSet::new();
+    let mut hist = [0u64; 3];
+    let mut n = 0u64;
+    let mut run = |b: Vec<u8>, rep: &mut Report| {
+        if !seen.insert(b.clone()) {
+            return;
+        }
+        n += 1;
+        if let Some((tail, what)) = eval_bfd(&b, &mut hist) {
+            record(rep, tail, what, format!("bfd|{}", hex(&b)));
+        }
+    };
+    beat(P_OTHER, 0, 0);
+    set_slot_text("bfd".into());
+    for base in &bases {
+        run(base.clone(), rep);
+        for i in 0..4 {
+            for v in 0..=255u8 {
+                let mut b = base.clone();
+                b[i] = v;
+                run(b, rep);
+            }
+        }
+        for i in 4..24 {
+            for v in byte_boundary_vals(base[i]) {
+                let mut b = base.clone();
+                b[i] = v;
+                run(b, rep);
+            }
+        }
+        for k in 0..24 {
+            run(base[..k].to_vec(), rep);
+        }
+        for extra in [1usize, 2, 24, 231, 232, 1000] {
+            let mut b = base.clone();
+            b.resize(24 + extra, 0);
+            run(b.clone(), rep);
+            // length byte agrees with the datagram size (authentication section / padding)
+            if b.len() <= 255 {
+                b[3] = b.len() as u8;
+                run(b, rep);
+            }
+        }
+        for l in 0..=255u8 {
+            // length byte l, datagram resized to l
+            let mut b = base.clone();
+            b[3] = l;
+            if l >= 4 {
+                b.resize(l as usize, 0);
+                b[3] = l;
+            }
+            run(b, rep);
+        }
+    }
+    idle();
+    rep.evaluations += n;
+    rep.distinct_nontrivial += n;
+    rep.add("cases:bfd", n);
+    for (k, v) in ["bfd:message", "bfd:error", "bfd:panic"].iter().zip(hist) {
+        rep.add(k, v);
+    }
+}
+
+// ---------------------------------------------------------------------------
+// entry point
+// ---------------------------------------------------------------------------
+
+fn replay(case: &str) -> Report {
     let mut rep = Report::new("C03", "hx-c03");
-    rep.machinery_error = Some("harness not built yet".into());
+    rep.rule = RULE.into();
+    let parts: Vec<&str> = case.split('|').collect();
+    // step budget in replay mode as well
+    std::thread::spawn(watchdog);
+    set_slot_text(case.to_string());
+    beat(P_OTHER, 0, 0);
+    WATCH_ON.store(true, Ordering::Relaxed);
+    let chunks_of = |s: &str| -> Vec<Vec<u8>> { s.split(',').map(unhex).collect() };
+    let res: Option<Bad> = match parts.as_slice() {
+        ["bgp", cx, hx] => {
+            let Some(cx) = Cx::parse(cx) else {
+                rep.machinery_error = Some(format!("bad codec descriptor {cx:?}"));
+                return rep;
+            };
+            let chunks = chunks_of(hx);
+            let refs: Vec<&[u8]> = chunks.iter().map(|c| &c[..]).collect();
+            let mut rx = cx.codec();
+            let mut acc = Acc::new();
+            eprintln!("c03 replay: codec {} (max {} bytes, two_byte_as {}), {} chunk(s), {} bytes", cx.name(), cx.max_len(), rx.two_byte_as, chunks.len(), chunks.iter().map(|c| c.len()).sum::<usize>());
+            let all: Vec<u8> = chunks.concat();
+            match wire::read_frame(&all, cx.max_len()) {
+                Ok(f) => eprintln!("c03 replay: independent reader: type {} length {} ({} fields)", f.msg_type, f.len, f.fields.len()),
+                Err(e) => eprintln!("c03 replay: independent reader: {e}"),
+            }
+            let r = eval_bgp(&mut rx, cx.max_len(), &refs, &mut acc);
+            for (i, n) in acc.hist.iter().enumerate() {
+                if *n > 0 {
+                    eprintln!("c03 replay:   outcome {} x{n}", h_name(i));
+                }
+            }
+            rep.evaluations = acc.evals;
+            r
+        }
+        ["rtr", hx] => {
+            let chunks = chunks_of(hx);
+            let refs: Vec<&[u8]> = chunks.iter().map(|c| &c[..]).collect();
+            let mut evals = 0;
+            let mut hist = [0u64; 4];
+            let r = eval_rtr(&refs, &mut evals, &mut hist);
+            eprintln!("c03 replay: rtr: {} chunk(s); message {} need-more {} error {} panic {}", chunks.len(), hist[0], hist[1], hist[2], hist[3]);
+            eprintln!("c03 replay: independent reader: {:?}", wire::read_rtr(&chunks.concat()).map(|p| (p.version, p.pdu_type, p.length)));
+            rep.evaluations = evals;
+            r
+        }
+        ["bfd", hx] => {
+            let b = unhex(hx);
+            let mut hist = [0u64; 3];
+            let r = eval_bfd(&b, &mut hist);
+            eprintln!("c03 replay: bfd {} bytes: message {} error {} panic {}", b.len(), hist[0], hist[1], hist[2]);
+            rep.evaluations = 1;
+            r
+        }
+        _ => {
+            rep.machinery_error = Some(format!("cannot parse replay case {case:?}"));
+            return rep;
+        }
+    };
+    WATCH_ON.store(false, Ordering::Relaxed);
+    match res {
+        Some((tail, what)) => {
+            eprintln!("c03 replay: VIOLATION C03/{tail}: {what}");
+            rep.violation(Violation { sig: format!("C03/{tail}"), what, case: case.to_string() });
+        }
+        None => eprintln!("c03 replay: all oracle clauses hold"),
+    }
+    rep.distinct_nontrivial = 1;
+    rep
+}
+
+pub fn run(replay_case: Option<&str>) -> Report {
+    if let Some(c) = replay_case {
+        return replay(c);
+    }
+    let mut rep = Report::new("C03", "hx-c03");
+    rep.rule = RULE.into();
+    let thorough = rep.thorough();
+    let t0 = std::time::Instant::now();
+    let mut notes = Vec::new();
+    let units: &'static [Unit] = UNITS.get_or_init(|| corpus(thorough, &mut notes));
+    rep.notes.extend(notes);
+    std::thread::spawn(watchdog);
+    WATCH_ON.store(true, Ordering::Relaxed);
+
+    // menu sizes (and reader statistics)
+    let sizes: Mutex<Vec<usize>> = Mutex::new(vec![0; units.len()]);
+    let reader_bad: Mutex<Vec<String>> = Mutex::new(Vec::new());
+    let nfields = AtomicU64::new(0);
+    enumr::par_range(units.len() as u64, &mut rep, |i, _r| {
+        let u = &units[i as usize];
+        let (m, info) = menu(&u.frame, &u.cx, u.big);
+        sizes.lock().unwrap()[i as usize] = m.len();
+        nfields.fetch_add(info.fields as u64, Ordering::Relaxed);
+        if !info.reader_ok {
+            reader_bad.lock().unwrap().push(u.label.clone());
+        }
+    });
+    let sizes = sizes.into_inner().unwrap();
+    let mut bad = reader_bad.into_inner().unwrap();
+    bad.sort();
+    bad.dedup();
+    let n_big = units.iter().filter(|u| u.big).count();
+    let n_pairs = units.iter().filter(|u| u.pairs && !u.big).count();
+    let cxs: HashSet<Cx> = units.iter().map(|u| u.cx).collect();
+    let rxs: HashSet<(u8, bool, bool, bool)> = units.iter().map(|u| u.cx.rx_key()).collect();
+    rep.notes.push(format!(
+        "corpus: {} distinct seed frames ({} full-size, {} in the pair corpus) under {} codecs ({} distinct decoder configurations); {} fields from wire.rs; total bytes {}",
+        units.len(), n_big, n_pairs, cxs.len(), rxs.len(), nfields.load(Ordering::Relaxed), units.iter().map(|u| u.frame.len()).sum::<usize>()
+    ));
+    if !bad.is_empty() {
+        rep.notes.push(format!("corpus: {} seed labels not accepted by the independent reader (generic mutations only): {}", bad.len(), report::trunc(&bad.join(" "), 400)));
+    }
+    for k in [0usize, units.len() / 3, 2 * units.len() / 3, units.len() - 1] {
+        let u = &units[k];
+        rep.samples.push(format!("seed {} under {}: {} ({} single mutations)", u.label, u.cx.name(), report::trunc(&hex(&u.frame), 160), sizes[k]));
+    }
+
+    let t = std::time::Instant::now();
+    pass_singles(units, &sizes, &mut rep);
+    rep.notes.push(format!("singles: {} mutations over {} seeds in {:.1}s", sizes.iter().sum::<usize>(), units.len(), t.elapsed().as_secs_f64()));
+    let t = std::time::Instant::now();
+    pass_stream(units, &mut rep);
+    rep.notes.push(format!("stream: every seed split at every offset, glued, header-only, byte-by-byte in {:.1}s", t.elapsed().as_secs_f64()));
+    if thorough {
+        let t = std::time::Instant::now();
+        pass_pairs(units, &sizes, &mut rep);
+        rep.notes.push(format!("pairs: {} seeds, {} pairs in {:.1}s", n_pairs, rep.extra.get("cases:mutation pairs").copied().unwrap_or(0), t.elapsed().as_secs_f64()));
+    } else {
+        rep.notes.push("pairs: not run in the quick tier".into());
+    }
+    let t = std::time::Instant::now();
+    pass_rtr(&mut rep);
+    pass_bfd(&mut rep);
+    rep.notes.push(format!("rtr+bfd in {:.1}s", t.elapsed().as_secs_f64()));
+    WATCH_ON.store(false, Ordering::Relaxed);
+
+    let outcomes: Vec<String> = rep.extra.iter().filter(|(k, _)| k.starts_with("bgp:") || k.starts_with("rtr:") || k.starts_with("bfd:")).map(|(k, v)| format!("{k}={v}")).collect();
+    rep.notes.push(format!("outcomes ({} classes): {}", outcomes.len(), outcomes.join(" ")));
+    rep.notes.push("assume: allocation: no decoder allocates from a length field beyond 64 KiB (BGP lengths are 16-bit; RtrCodec never allocates from the 32-bit length) - checked by reading the code, not observed".into());
+    rep.notes.push(format!("assume: step budget = {} s per decoder call (watchdog); decode loops capped at buffer-length iterations", stall_limit().as_secs()));
+    rep.notes.push(format!("total {:.1}s", t0.elapsed().as_secs_f64()));
+    canonical_witnesses(&mut rep);
+    rep.exhaustive = true;
     rep
 }
